@@ -27,11 +27,13 @@ package main
 // is expanded and the analysed program is exactly the one on disk.
 
 import (
+	"crypto/sha1"
 	_ "embed"
 	"fmt"
 	"go/ast"
 	"go/parser"
 	"go/printer"
+	"go/scanner"
 	"go/token"
 	"go/types"
 	"os"
@@ -50,20 +52,218 @@ var baselineFuncsTxt string
 // parameter names with types ("name type"), in order. The names are those the rules and their
 // messages use ("param:data"); a parameter that was merely renamed is still described by its
 // reference name as long as the signature's types are unchanged (values.go, describe).
-var baselineFuncs, baselineParams = func() (map[string]bool, map[string][]string) {
+var baselineFuncs, baselineParams, baselineBodies = func() (map[string]bool, map[string][]string, map[string]string) {
 	m := map[string]bool{}
 	ps := map[string][]string{}
+	fps := map[string]string{}
 	for _, l := range strings.Split(baselineFuncsTxt, "\n") {
-		if l = strings.TrimSpace(l); l != "" && !strings.HasPrefix(l, "#") {
+		if l = strings.TrimRight(l, " \r"); strings.TrimSpace(l) != "" && !strings.HasPrefix(l, "#") {
 			key, rest, _ := strings.Cut(l, "\t")
+			params, fp, _ := strings.Cut(rest, "\t")
 			m[key] = true
-			if rest != "" {
-				ps[key] = strings.Split(rest, "|")
+			if params != "" {
+				ps[key] = strings.Split(params, "|")
+			}
+			if fp != "" {
+				// one key can have several bodies (per-platform files): any of them
+				if fps[key] != "" {
+					fps[key] += ","
+				}
+				fps[key] += fp
 			}
 		}
 	}
-	return m, ps
+	return m, ps, fps
 }()
+
+// bodyPrint: a fingerprint of a function body: its tokens, comments and layout left out. A
+// function that was merely renamed (or re-commented, or re-formatted) keeps it.
+func bodyPrint(fset *token.FileSet, body *ast.BlockStmt) string { return bodyPrintR(fset, body, nil) }
+
+// bodyPrintR: bodyPrint with the identifiers in ren read under their reference names (functions
+// already recognised as renamed: their callers' bodies changed only in that name).
+func bodyPrintR(fset *token.FileSet, body *ast.BlockStmt, ren map[string]string) string {
+	if body == nil {
+		return ""
+	}
+	tf := fset.File(body.Pos())
+	if tf == nil {
+		return ""
+	}
+	src, err := os.ReadFile(tf.Name())
+	if err != nil || tf.Offset(body.End()) > len(src) {
+		return ""
+	}
+	text := src[tf.Offset(body.Pos()):tf.Offset(body.End())]
+	var sc scanner.Scanner
+	fs := token.NewFileSet()
+	sc.Init(fs.AddFile("", fs.Base(), len(text)), text, nil, 0)
+	h := sha1.New()
+	for {
+		_, tok, lit := sc.Scan()
+		if tok == token.EOF {
+			break
+		}
+		if tok == token.SEMICOLON && lit == "\n" {
+			continue
+		}
+		if lit == "" {
+			lit = tok.String()
+		}
+		if tok == token.IDENT {
+			if old, ok := ren[lit]; ok {
+				lit = old
+			}
+		}
+		h.Write([]byte(lit))
+		h.Write([]byte{0})
+	}
+	return fmt.Sprintf("%x", h.Sum(nil)[:6])
+}
+
+// Renamed anchors. A function of the reference tree that no longer exists, while a function that
+// does not exist in the reference tree has the same receiver, the same parameter types and the
+// same body, was renamed. The new name is then treated as the old one: it is not expanded into
+// its callers, anchors resolve to it, and it is reported under the reference name.
+var renameNewToOld = map[string]string{} // key of the new function → reference simple name
+var renameOldToNew = map[string]string{} // reference key → new simple name
+
+func detectRenames(pkgs []*packages.Package, dir string) []string {
+	var notes []string
+	for _, p := range pkgs {
+		if len(p.Syntax) == 0 || p.Types == nil || len(p.CompiledGoFiles) != len(p.Syntax) {
+			continue
+		}
+		present := map[string]bool{}
+		var fresh []*ast.FuncDecl
+		inModule := false
+		for i, f := range p.Syntax {
+			if !strings.HasPrefix(p.CompiledGoFiles[i], dir+string(filepath.Separator)) {
+				continue
+			}
+			inModule = true
+			for _, d := range f.Decls {
+				if fd, ok := d.(*ast.FuncDecl); ok {
+					k := funcKey(p.PkgPath, fd)
+					present[k] = true
+					if !baselineFuncs[k] && fd.Body != nil {
+						fresh = append(fresh, fd)
+					}
+				}
+			}
+		}
+		if !inModule || len(fresh) == 0 {
+			continue
+		}
+		typesOf := func(fd *ast.FuncDecl) []string {
+			var got []string
+			add := func(fl *ast.FieldList) {
+				if fl == nil {
+					return
+				}
+				for _, fld := range fl.List {
+					var tb strings.Builder
+					printer.Fprint(&tb, p.Fset, fld.Type)
+					nn := len(fld.Names)
+					if nn == 0 {
+						nn = 1
+					}
+					for j := 0; j < nn; j++ {
+						got = append(got, tb.String())
+					}
+				}
+			}
+			add(fd.Recv)
+			add(fd.Type.Params)
+			return got
+		}
+		prefix := p.PkgPath + "."
+		var keys []string
+		for key := range baselineBodies {
+			keys = append(keys, key)
+		}
+		sort.Strings(keys)
+		identRen := map[string]string{} // new simple name → reference simple name, within this package
+		for pass := 0; pass < 3; pass++ {
+			before := len(notes)
+			for _, key := range keys {
+				if _, done := renameOldToNew[key]; done {
+					continue
+				}
+				fp := baselineBodies[key]
+				// reference functions of this package that are gone
+				if !strings.HasPrefix(key, prefix) || strings.Contains(key, "$") || present[key] {
+					continue
+				}
+				rest := strings.TrimPrefix(key, prefix)
+				if strings.Contains(rest, "/") {
+					continue // a sub-package's function
+				}
+				recvPart := ""
+				if i := strings.LastIndex(rest, "."); i >= 0 {
+					recvPart = rest[:i+1]
+				}
+				var match *ast.FuncDecl
+				n := 0
+				for _, fd := range fresh {
+					nk := strings.TrimPrefix(funcKey(p.PkgPath, fd), prefix)
+					nRecv := ""
+					if i := strings.LastIndex(nk, "."); i >= 0 {
+						nRecv = nk[:i+1]
+					}
+					if _, taken := renameNewToOld[funcKey(p.PkgPath, fd)]; taken {
+						continue
+					}
+					if nRecv != recvPart || !strings.Contains(","+fp+",", ","+bodyPrintR(p.Fset, fd.Body, identRen)+",") {
+						continue
+					}
+					match = fd
+					n++
+				}
+				if os.Getenv("VERIF_INLINE_DEBUG") != "" {
+					var fs []string
+					for _, fd := range fresh {
+						fs = append(fs, fd.Name.Name+"="+bodyPrintR(p.Fset, fd.Body, identRen))
+					}
+					fmt.Printf("rename? missing %s fp=%s candidates %v matches=%d\n", key, fp, fs, n)
+				}
+				if n != 1 {
+					continue
+				}
+				want, got := baselineParams[key], typesOf(match)
+				same := len(got) == len(want)
+				for i := range got {
+					if same {
+						_, t, _ := strings.Cut(want[i], " ")
+						same = t == got[i]
+					}
+				}
+				if !same {
+					continue
+				}
+				newKey := funcKey(p.PkgPath, match)
+				oldName := rest[strings.LastIndex(rest, ".")+1:]
+				renameNewToOld[newKey] = oldName
+				renameOldToNew[key] = match.Name.Name
+				baselineFuncs[newKey] = true
+				baselineParams[newKey] = baselineParams[key]
+				for k, v := range baselineParams {
+					if strings.HasPrefix(k, key+"$") {
+						baselineParams[newKey+strings.TrimPrefix(k, key)] = v
+						baselineFuncs[newKey+strings.TrimPrefix(k, key)] = true
+					}
+				}
+				notes = append(notes, strings.TrimPrefix(key, modPath+"/")+" is now "+match.Name.Name)
+				identRen[match.Name.Name] = oldName
+			}
+			if len(notes) == before {
+				break
+			}
+		}
+	}
+	sort.Strings(notes)
+	return notes
+}
 
 func recvTypeName(e ast.Expr) string {
 	for {
@@ -98,7 +298,9 @@ type inlineStats struct {
 	Rounds  int      `json:"rounds"`
 	// new struct types turned back into local variables (sroa.go)
 	Scalarised []string `json:"structs_scalarised,omitempty"`
-	Note       string   `json:"note,omitempty"`
+	// reference functions recognised under a new name
+	Renamed []string `json:"renamed,omitempty"`
+	Note    string   `json:"note,omitempty"`
 }
 
 type edit struct {
@@ -1457,7 +1659,7 @@ func dumpFuncs(repo string) {
 				}
 				add(fd.Recv)
 				add(fd.Type.Params)
-				keys = append(keys, funcKey(pkg, fd)+"\t"+strings.Join(ps, "|"))
+				keys = append(keys, funcKey(pkg, fd)+"\t"+strings.Join(ps, "|")+"\t"+bodyPrint(fset, fd.Body))
 				// function literals, numbered like go/ssa's anonymous functions (f$1, f$1$2, …)
 				var lits func(n ast.Node, prefix string)
 				lits = func(n ast.Node, prefix string) {
